@@ -442,6 +442,16 @@ def r_ord_empty(ctx, fq):
                   'ValueError raised iff the accepted fraction is 0',
                   '%s raises %s with table %s for (none accepted, some accepted); required ValueError iff none'
                   % (f.name, typ, tab), extracted=[str(x) for x in tab], inputs='empty and non-empty masks')
+    if n == 0:
+        for nd in raises:
+            for atom, pol in ctx.conds(f, nd):
+                for x in walk_term(atom):
+                    if is_call(x, 'builtins.len') and x[2] and x[2][0] == ('v', 'vertices', 'P') and _exc_type(f, nd) == 'ValueError':
+                        run.refute('R-ORD', f, 'raise-iff-none-accepted', nd.lineno,
+                                   'the "nothing collected" error of %s depends on len(vertices), the size of the mask (always 4^k), '
+                                   'not on how many entries are marked: an all-zero mask is not rejected' % f.name,
+                                   inputs='the all-zero mask')
+                        return
     run.floor('R-ORD', 'emptiness raise in %s' % fq, n, 1)
 
 
@@ -622,8 +632,9 @@ def r_arb(ctx):
     f = ctx.p.func('dsw.spiderweb.connect_coding_graph')
     sites = [(nd, c) for nd, c, callee, q in ctx.calls()[f.fq] if q and q.endswith('find_cycle')]
     if not sites:
-        run.notes.append('R-ARB: no find_cycle call in connect_coding_graph')
-        run.ok('R-ARB', f, 'no-arbitrary-witness', f.node.lineno, 'find_cycle is not used', nontrivial=False)
+        run.undecided('R-ARB', f, 'pruning-by-cycle-search', f.node.lineno,
+                      'the threshold-1 pruning no longer uses the cycle search this rule decides; whether it still reaches the '
+                      'fixed point (a removal can turn a branching vertex into an information-free one) is not decided')
         return
     for i, (nd, c) in enumerate(sites):
         if not nd.loops:
@@ -796,6 +807,11 @@ def r_bfs(ctx):
         for x in inner:
             if isinstance(x.stmt.iter, ast.Name):
                 front = x.stmt.iter.id
+        if not front:
+            for x in inner:
+                for n_ in ast.walk(x.stmt.iter):
+                    if isinstance(n_, ast.Name) and any(d.name == n_.id and d.node in body and d.kind == 'assign' for d in f.defs):
+                        front = n_.id
         rebind = [d for d in f.defs if front and d.name == front and d.node in body and d.kind == 'assign']
         if not front:
             # comprehension form: X = [... for v in X ...] inside the level loop
@@ -812,6 +828,25 @@ def r_bfs(ctx):
         run.check(bool(front and rebind), 'R-BFS', f, 'depth-loop#%d:frontier-rebound' % (i + 1), nd.lineno,
                   'the frontier is replaced by the new level each round',
                   'the frontier of the breadth-first search is not rebound inside the level loop', inputs='depth >= 2')
+        # leaving the depth loop early is only sound after the frontier was replaced by the (empty) new level
+        dom = f.dominators()
+        rebind_nodes = {d.node for d in rebind}
+        for x in f.nodes:
+            if x.id in body and isinstance(x.stmt, ast.Break) and x.loops[-1] == nd.id:
+                run.check(any(r in dom[x.id] for r in rebind_nodes), 'R-BFS', f, 'depth-loop#%d:early-exit-after-rebind' % (i + 1),
+                          x.lineno, 'the level loop is left only after the frontier was replaced',
+                          'the level loop is left (break at line %d) before the frontier is replaced by the new level: a search '
+                          'that hits a dead end returns the previous frontier instead of no leaves' % x.lineno,
+                          inputs='a vertex with incoming arcs but no outgoing ones')
+        for x in inner:
+            it_ = x.stmt.iter
+            setlike = any(isinstance(n_, ast.BinOp) and isinstance(n_.op, (ast.BitAnd, ast.BitOr)) for n_ in ast.walk(it_)) or \
+                any(isinstance(n_, ast.Call) and isinstance(n_.func, ast.Name) and n_.func.id in ('set', 'frozenset') for n_ in ast.walk(it_))
+            if setlike and front and any(isinstance(n_, ast.Name) and n_.id == front for n_ in ast.walk(it_)):
+                run.refute('R-BFS', f, 'depth-loop#%d:frontier-deduplicated' % (i + 1), x.lineno,
+                           'the frontier is iterated through a set expression (%s): a vertex reached by several walks is expanded '
+                           'once, so the result is not the multiset of walk end points' % ast.unparse(it_)[:60],
+                           inputs='depths at which two walks meet in one vertex')
         # the frontier loop visits every element: no break / return inside it
         for x in f.nodes:
             if x.id in body and isinstance(x.stmt, (ast.Break, ast.Return)) and len(x.loops) >= 2 and x.loops[0] == nd.id:
